@@ -17,9 +17,10 @@ package main
 // them); mode/owner/mtime/xattrs of an outside file that the *user* hard-linked into the target
 // (restoring the metadata of the in-target path changes the shared inode — bytes must not change).
 //
-// Two genuine defects of the unchanged tree have their own keys (see known_findings.txt):
+// Three genuine defects of the unchanged tree have their own keys (see known_findings.txt):
 //   outside-modified-via-unselected-parent-symlink  (deterministic case regress-incsym)
 //   outside-modified-via-duplicate-node-name        (deterministic cases regress-dup-*)
+//   outside-modified-via-hardlink-to-skipped-item   (deterministic case regress-hardlink-to-skipped-symlink)
 
 import (
 	"fmt"
@@ -330,6 +331,11 @@ func c18Regressions() []c18Case {
 			{Name: "h1", Type: "file", Mode: 0o644, Mtime: 1400000000, Content: "hardlinked", Inode: 77, Links: 2},
 			{Name: "h2", Type: "symlink", Target: "@BOX@/outside/sentinel", Mtime: 1400000000},
 			{Name: "h2", Type: "file", Mode: 0o777, UID: 3914, GID: 3915, Mtime: 1400005000, Content: "hardlinked", Inode: 77, Links: 2}}},
+		// hard-link group whose first path is a pre-existing symlink that --overwrite never skips
+		{Regress: "regress-hardlink-to-skipped-symlink", Sorted: true, Overwrite: "never", Features: []string{"hardlink", "presym"}, Tree: []*c18Node{
+			{Name: "h1", Type: "file", Mode: 0o644, UID: 3916, GID: 3917, Mtime: 1400000000, Content: "hardlinked", Inode: 78, Links: 2},
+			{Name: "h2", Type: "file", Mode: 0o1733, UID: 3918, GID: 3919, Mtime: 1400006000, Content: "hardlinked", Inode: 78, Links: 2}},
+			Pre: []c18Pre{{Path: "h1", Kind: "symlink", Target: "@BOX@/outside/sentinel"}}},
 	}
 }
 
@@ -586,6 +592,8 @@ func c18Run(t *testing.T, rec *kit.Rec, c c18Case) {
 			key = "outside-modified-via-duplicate-node-name"
 		case c.has("include") && c.has("presym-intermediate"):
 			key = "outside-modified-via-unselected-parent-symlink"
+		case c.has("hardlink") && c.has("presym") && (c.Overwrite == "never" || c.Overwrite == "if-newer"):
+			key = "outside-modified-via-hardlink-to-skipped-item"
 		}
 		name := c.Regress
 		if name == "" {
